@@ -82,8 +82,20 @@ func init() {
 		Run: func(c *rt.Ctx) {
 			c.Cov["rule"] = "E3: every history up to the depth bound over {mint quote (plain, NUT-20 locked), settle (user pays), poll, mint x {fresh exact, same outputs again, over amount, without / with foreign NUT-20 signature}, delivery of the backend's asynchronous 'invoice settled' notification to the mint's watcher goroutine, internal melt of the quote's own invoice, restart}, at most 2 quotes; the Lightning model is the truth about payments; in every state every quote is asked for fresh signatures once more (must refuse unless paid and not yet issued)"
 			runSpecs(c, c03Specs(c.Quick()))
+			c.Cov["rule_schedules"] = "E1: for each scenario every interleaving of concurrent MintTokens calls (different outputs), quote-state polls, the user's payment and the backend's asynchronous notification (the mint's own watcher goroutine is adopted as a thread parked before its store write) at MintDB / Lightning call granularity with at most B preemptions, followed by a sequential tail mint; oracle: successful issuances <= payments, total <= amount, none before settlement, final state ISSUED iff issued, a paid unissued quote stays usable"
+			if c.Quick() {
+				runSched(c, "C03", []string{"M1-mint-mint", "M3-mint-poll-watcher", "M5-mint-poll-settlement", "M6-nut20-mint-mint", "M7-mint-badmint"}, 2)
+			} else {
+				runSched(c, "C03", []string{"M1-mint-mint", "M3-mint-poll-watcher", "M4-mint-mint-watcher", "M5-mint-poll-settlement", "M6-nut20-mint-mint", "M7-mint-badmint"}, 3)
+				runSched(c, "C03", []string{"M2-mint-mint-mint"}, 2)
+			}
 		},
-		Worker: bfs.Worker(c03All),
-		Replay: func(p string) int { return bfs.ReplayFile("C03", c03All, p) },
+		Worker: dispatchWorker(bfs.Worker(c03All)),
+		Replay: func(p string) int {
+			if code, ok := replaySched("C03", p); ok {
+				return code
+			}
+			return bfs.ReplayFile("C03", c03All, p)
+		},
 	})
 }
